@@ -67,6 +67,16 @@ class Goal(object):
         return False
 
     def get_logic(self) -> Logic:
+        # The comparison operators of an objective only depend on its
+        # type: its sub-terms may mix other theories (e.g. the
+        # conditions of the soft clauses of a MaxSMT goal)
+        term_type = self.term().get_type()
+        if term_type.is_int_type():
+            return LIA
+        elif term_type.is_real_type():
+            return LRA
+        elif term_type.is_bv_type():
+            return BV
         logic = get_logic(self.term())
         if logic <= LIA:
             return LIA
